@@ -45,7 +45,7 @@ type kp = []string
 
 var properties = map[string]propSpec{
 	"C01": {Rules: rl{ruleAcceptedPerforms, ruleBroadcastShape, ruleMutateRelay, ruleAcceptedApplies, ruleCascade, ruleSnapshot, ruleErrorDiscipline, ruleModuleCleanup, ruleModuleInit, ruleStoreContracts, ruleSubscriptions, ruleEntityActions, ruleAtomicity, ruleRelaySync, ruleIDGenerator, ruleLeaveComplete, ruleMembershipContracts, ruleNoGlobalSessionData}, Keep: kp{"B9", "C3", "C1", "B8", "E4", "C7", "ERR", "E3", "J3", "J4", "S-", "E8", "C6", "D3", "E1", "S-Members", "J5"}, Sites: map[string][]string{"E8": {"entity:exists", "modulestate:missing"}}},
-	"C02": {Rules: rl{ruleMutateRelay, ruleAcceptedApplies, ruleAnswers, ruleSenderExcluded, ruleDecoratorForward, ruleBroadcastShape, ruleRelaySync, ruleModuleInit, ruleIDGenerator, rulePairedState, ruleMembershipContracts, ruleLeaveCallers, ruleFramePair, ruleSnapshot, ruleGuardedBy}, Keep: kp{"C1", "B8", "B5", "B7", "C2", "A2", "C3", "C6", "J3", "D3", "E9", "S-Members", "E2", "E6", "C11-pose", "F1"}, Sites: map[string][]string{"F1": {"SequentialIDGenerator"}}},
+	"C02": {Rules: rl{ruleMutateRelay, ruleAcceptedApplies, ruleAnswers, ruleSenderExcluded, ruleDecoratorForward, ruleBroadcastShape, ruleRelaySync, ruleModuleInit, ruleIDGenerator, rulePairedState, ruleMembershipContracts, ruleLeaveCallers, ruleFramePair, ruleSnapshot, ruleGuardedBy, ruleQueueDrained}, Keep: kp{"C1", "B8", "B5", "B7", "C2", "A2", "C3", "C6", "J3", "D3", "E9", "S-Members", "E2", "E6", "C11-pose", "F1", "G10"}, Sites: map[string][]string{"F1": {"SequentialIDGenerator"}}},
 	"C03": {Rules: rl{ruleNoGlobalSessionData, ruleBroadcastShape, ruleSenderExcluded, ruleJoinedGuard, rulePairedState, ruleDispatchTotal, ruleAnswers, ruleModuleInit, ruleRegistry, ruleIDGenerator, ruleLeaveCallers, ruleLeaveComplete, ruleNoStateCopy, ruleMembershipContracts, ruleRelaySync, ruleIDSources}, Keep: kp{"J5", "C3", "J6", "J1", "J2", "E9", "A1", "B5", "J3", "E7", "D3", "E2", "E6", "F2c", "S-Members", "C6", "D2"}},
 	"C04": {Rules: rl{ruleAcceptedPerforms, ruleDispatchTotal, ruleAnswers, ruleAcceptedApplies, ruleJoinedGuard, ruleDecoratorForward, ruleModuleCleanup, ruleStoreContracts, ruleSubscriptions, ruleRelaySync, ruleSplitCriticalSection, ruleModuleInit, ruleFrameLimit, ruleLatencyReport, ruleLockOrder, ruleRegistry}, Keep: kp{"A1", "B", "J2", "A2", "E3", "S-", "C6", "E8a", "J3", "G8", "I4", "F3", "E7"}},
 	"C05": {Rules: rl{rulePairedState, ruleModuleInit, ruleOwnerGuard, ruleAnswers, ruleSenderExcluded, ruleIDGenerator, ruleIDSources, ruleGuardedBy, ruleNoStateCopy, ruleModuleCleanup}, Keep: kp{"E9", "J3", "D1", "B5", "J1", "D3", "D2", "D5", "F1", "F2c", "E3"}, Sites: map[string][]string{"F1": {"SequentialIDGenerator"}}},
@@ -54,10 +54,10 @@ var properties = map[string]propSpec{
 	"C08": {Rules: rl{ruleLockOrder, ruleMainLineBlocking, rulePairedState, ruleDecoratorForward, rulePBNil, ruleFunnelOnce, ruleGaugePair, ruleWaitFor, rulePanicContainment, ruleClampSymmetry, ruleTaintAlloc, ruleDeferUnlock, ruleFramePair, ruleRelaySync, ruleGridAxes, ruleGuardedBy, ruleDeadlines, ruleLeaveCallers, ruleQueueDrained, ruleLoopTimers}, Keep: kp{"F3", "A2", "G1", "E5", "G5", "G6", "F4", "G2", "G3", "G4", "F6b", "E6", "C6", "E9", "G7", "F1", "G9", "E2", "G10", "G11"}, Sites: map[string][]string{"F1": {"handlerWithLogs.", "handlerWithMetrics.", "handler.", "RealtimeHandler.", "EntityComponentStore.", "Session.", "SessionStore.", "SequentialIDGenerator", "State."}}},
 	"C09": {Rules: rl{ruleGuardedBy, ruleNoEscape, ruleLockOrder, ruleLockPairing, ruleSplitCriticalSection, ruleWaitFor, ruleDeferUnlock, ruleFramePair, ruleAtomicity, ruleThreadConfinement, ruleFunnelOnce, ruleNoLockCopy, ruleNoStateCopy, ruleNoGlobalSessionData, ruleQueueDrained}, Keep: kp{"F1", "F2", "F2t", "F3", "F4", "F5", "F6", "F6b", "E6", "E8", "E8a", "E5", "F6c", "F2c", "J5", "G10"}, Sites: map[string][]string{"E5": {"join-goroutines", "wait-group", "done-when"}}},
 	"C10": {Rules: rl{ruleModuleInit, ruleGuardedBy, ruleIDGenerator, ruleStoreContracts, ruleSplitCriticalSection, ruleIDSources, ruleEntityActions, ruleRegistry, ruleAtomicity, ruleAcceptedPerforms, ruleLeaveComplete, rulePairedState}, Keep: kp{"J3", "F1", "D3", "D4", "E8a", "D5", "E7", "E8", "B9", "E1", "E9"}, Sites: map[string][]string{"B9": {"EntityComponentTypeAdd", "EntityComponentGetID", "EntityComponentGetName"}, "E8": {"session:empty", "modulestate:missing"}, "E1": {"emptiness-test", "count-after-remove", "registry"}, "F1": {"SequentialIDGenerator", "EntityComponentStore.idIndex", "EntityComponentStore.nameIndex", "SessionStore.sessions"}}},
-	"C11": {Rules: rl{ruleLeaveComplete, ruleRelaySync, rulePairedState, rulePBNil, ruleSnapshot, ruleAnswers, ruleOwnerGuard, ruleFramePair, ruleIDGenerator, ruleMutateRelay, ruleFlagWrap, ruleLeaveCallers}, Keep: kp{"E1", "C6", "E9", "G1", "C11-pose", "B5", "B7", "D1", "E6", "D3", "C1", "C4c", "E2"}, Sites: map[string][]string{"E1": {"emptiness-test", "count-after-remove", "registry"}}},
+	"C11": {Rules: rl{ruleLeaveComplete, ruleRelaySync, rulePairedState, rulePBNil, ruleSnapshot, ruleAnswers, ruleOwnerGuard, ruleFramePair, ruleIDGenerator, ruleMutateRelay, ruleFlagWrap, ruleLeaveCallers, ruleQueueDrained}, Keep: kp{"E1", "C6", "E9", "G1", "C11-pose", "B5", "B7", "D1", "E6", "D3", "C1", "C4c", "E2", "G10"}, Sites: map[string][]string{"E1": {"emptiness-test", "count-after-remove", "registry"}}},
 	"C12": {Rules: rl{ruleAcceptedPerforms, ruleJoinedGuard, rulePairedState, ruleStoreContracts, ruleCascade, ruleErrorDiscipline, ruleSplitCriticalSection, ruleLeaveComplete, ruleArgRoles, ruleAnswers, ruleMutateRelay, ruleFunnelOnce}, Keep: kp{"B9", "J2", "E9", "S-", "D4", "E4", "ERR", "E8a", "E1", "B10", "B5", "C1", "E5", "G5"}, Sites: map[string][]string{"B5": {"EntityComponent"}, "C1": {"EntityComponent"}}},
-	"C13": {Rules: rl{ruleRelaySync, ruleAcceptedPerforms, ruleNotifyGated, ruleSenderExcluded, ruleSubscriptions, ruleLeaveComplete, ruleArgRoles, ruleBroadcastShape, ruleGuardedBy, ruleLeaveCallers, ruleFramePair}, Keep: kp{"C6", "B9", "C5", "C2", "S-", "E1", "B10", "C3", "F1", "E2", "E6"}, Sites: map[string][]string{"F1": {"EntityComponentStore.subscriptions"}}},
-	"C14": {Rules: rl{rulePairedState, ruleBroadcastShape, ruleSenderExcluded, ruleCustomMessage, ruleRelaySync, ruleGuardedBy, ruleMembershipContracts, ruleDecoratorForward, ruleFrameLimit, ruleLeaveCallers}, Keep: kp{"E9", "C3", "J6", "C2", "H1", "H4", "C6", "F1", "S-Members", "A2", "G8", "E2"}, Sites: map[string][]string{"F1": {"Session."}}},
+	"C13": {Rules: rl{ruleRelaySync, ruleAcceptedPerforms, ruleNotifyGated, ruleSenderExcluded, ruleSubscriptions, ruleLeaveComplete, ruleArgRoles, ruleBroadcastShape, ruleGuardedBy, ruleLeaveCallers, ruleFramePair, ruleQueueDrained}, Keep: kp{"C6", "B9", "C5", "C2", "S-", "E1", "B10", "C3", "F1", "E2", "E6", "G10"}, Sites: map[string][]string{"F1": {"EntityComponentStore.subscriptions"}}},
+	"C14": {Rules: rl{rulePairedState, ruleBroadcastShape, ruleSenderExcluded, ruleCustomMessage, ruleRelaySync, ruleGuardedBy, ruleMembershipContracts, ruleDecoratorForward, ruleFrameLimit, ruleLeaveCallers, ruleQueueDrained}, Keep: kp{"E9", "C3", "J6", "C2", "H1", "H4", "C6", "F1", "S-Members", "A2", "G8", "E2", "G10"}, Sites: map[string][]string{"F1": {"Session."}}},
 	"C15": {Rules: rl{ruleAuthGate}, Keep: kp{"I6"}},
 	"C16": {Rules: rl{ruleEntityActions, ruleSnapshot, ruleOwnerGuard, ruleModuleInit, ruleModuleCleanup, ruleRelaySync, ruleLeaveComplete, ruleNoGlobalSessionData, ruleMutateRelay}, Keep: kp{"H3", "S-", "D5", "C7", "D1", "J4", "J3", "E3", "C6", "E1", "J5", "C1"}, Sites: map[string][]string{"E1": {"entity-loop", "modules-told"}}},
 	"C17": {Rules: rl{ruleFlagWrap}},
